@@ -28,7 +28,28 @@ def run(ctx):
     b = fx.body(WC)
     chk.analysed(b.name)
     r1_restore(chk, fx, b)
-    # R2 WHO
+    # R2 WHO: with_connection, and the private helpers that only with_connection (or such a helper) calls
+    callers = {}
+    for name, body in fx.mir.items():
+        if body.crate != "bgpfu":
+            continue
+        for c in body.calls():
+            tgt = None if c.macro else (c.rdef or c.defn)
+            if tgt in fx.mir:
+                callers.setdefault(tgt, set()).add(name.split("::{closure")[0])
+    allowed = {WC}
+    changed = True
+    while changed:
+        changed = False
+        for f, cs in callers.items():
+            if f not in allowed and cs and cs <= allowed and fx.mir[f].crate == "bgpfu":
+                try:
+                    private = fx.fn_item(f).get("vis", "").startswith("Restricted")
+                except F.AnchorLost:
+                    private = False
+                if private:
+                    allowed.add(f)
+                    changed = True
     n = 0
     for name, body in fx.mir.items():
         if body.crate != "bgpfu":
@@ -47,7 +68,7 @@ def run(ctx):
                 for pl in pls:
                     if ".conn" in (pl.get("p") or []) and "RpslEvaluator" in body.local_ty(pl["l"]):
                         n += 1
-                        ok = name == WC or name.startswith("bgpfu::query::RpslEvaluator::new") or "as std::fmt::Debug>::fmt" in name
+                        ok = name.split("::{closure")[0] in allowed or name.startswith("bgpfu::query::RpslEvaluator::new") or "as std::fmt::Debug>::fmt" in name
                         chk.instance("C17/R2", "RpslEvaluator.conn accessed only in new / with_connection", name, loc_of(s.get("sp")), holds=ok,
                                      key="C17/R2 conn-accessed-in %s" % T.strip_generics(name))
     chk.floor("C17/R2 conn access sites", n, 2)
